@@ -158,5 +158,6 @@ void h_run(void) {
     sim_violation("C02-entry-lost", "%d entries pushed, %d handed out after the final drain (e.g. entry %d was dropped)", pushed_total, taken_total, lost);
   }
   sim_probe("grown", dq->underlying_array->log_size > 8);
+  wsd_work_stealing_deque_destroy(dq);
   sim_finish_ok();
 }
